@@ -469,4 +469,49 @@ MUTANTS = {
         checks=["C16"],
         edits=[(L, '_decimal_escape = r"""(\\d+)(?!\\d)"""', '_decimal_escape = r"""(\\d+)"""')],
     ),
+    "C04-rbrace-no-pop": dict(
+        what="the scope opened for a block is not popped at '}' when it declared nothing",
+        checks=["C04"],
+        edits=[(P, "        if len(self._scope_stack) > 1:\n            self._scope_stack.pop()", "        if len(self._scope_stack) > 1 and not self._scope_stack[-1]:\n            self._scope_stack.pop()")],
+    ),
+    "C04-pop-keeps-typedefs": dict(
+        what="typedef names declared in a block survive the block (merged into the enclosing scope at '}')",
+        checks=["C04"],
+        edits=[(P, "        if len(self._scope_stack) > 1:\n            self._scope_stack.pop()", "        if len(self._scope_stack) > 1:\n            inner = self._scope_stack.pop()\n            for k, v in inner.items():\n                if v:\n                    self._scope_stack[-1].setdefault(k, v)")],
+    ),
+    "C04-lookup-outermost-first": dict(
+        what="_is_type_in_scope searches the outermost scope first",
+        checks=["C04"],
+        edits=[(P, "        for scope in reversed(self._scope_stack):\n            # If name is an identifier", "        for scope in self._scope_stack:\n            # If name is an identifier")],
+    ),
+    "C04-add-identifier-file-scope": dict(
+        what="object names are recorded in the file scope",
+        checks=["C04"],
+        edits=[(P, "        self._scope_stack[-1][name] = False", "        self._scope_stack[0][name] = False")],
+    ),
+    "C04-params-not-registered": dict(
+        what="parameter names of a function definition are not entered into the body scope",
+        checks=["C04"],
+        edits=[(P, "                    if name:\n                        self._add_identifier(name, param.coord)", "                    if name and False:\n                        self._add_identifier(name, param.coord)")],
+    ),
+    "C04-members-registered": dict(
+        what="struct members are entered into the ordinary-identifier namespace",
+        checks=["C04"],
+        edits=[(P, "            self._expect(\"SEMI\")\n            return self._build_declarations(spec=spec, decls=decls)", "            self._expect(\"SEMI\")\n            decls_built = self._build_declarations(spec=spec, decls=decls)\n            for d in decls_built:\n                if getattr(d, \"name\", None):\n                    self._scope_stack[-2 if len(self._scope_stack) > 1 else -1][d.name] = False\n            return decls_built")],
+    ),
+    "C04-proto-params-registered": dict(
+        what="prototype-only parameter names are entered into the enclosing scope",
+        checks=["C04"],
+        edits=[(P, "        if self._peek_type() == \"LBRACE\":\n            if func.args is not None:", "        if True:\n            if func.args is not None:")],
+    ),
+    "C04-tags-registered": dict(
+        what="struct tags are entered into the ordinary-identifier namespace as non-types",
+        checks=["C04"],
+        edits=[(P, "        if self._peek_type() in {\"ID\", \"TYPEID\"}:\n            name_tok = self._advance()\n            if self._peek_type() == \"LBRACE\":\n                self._advance()\n                if self._accept(\"RBRACE\"):", "        if self._peek_type() in {\"ID\", \"TYPEID\"}:\n            name_tok = self._advance()\n            self._scope_stack[-1].setdefault(name_tok.value, False)\n            if self._peek_type() == \"LBRACE\":\n                self._advance()\n                if self._accept(\"RBRACE\"):")],
+    ),
+    "C04-typedef-redeclare-as-object-silently": dict(
+        what="a typedef name stays a type after an inner object declaration with an initializer",
+        checks=["C04"],
+        edits=[(P, "            if typedef_namespace:\n                if is_typedef:\n                    self._add_typedef_name(fixed_decl.name, fixed_decl.coord)\n                else:\n                    self._add_identifier(fixed_decl.name, fixed_decl.coord)", "            if typedef_namespace:\n                if is_typedef:\n                    self._add_typedef_name(fixed_decl.name, fixed_decl.coord)\n                elif decl.get(\"init\") is None or not self._is_type_in_scope(fixed_decl.name):\n                    self._add_identifier(fixed_decl.name, fixed_decl.coord)")],
+    ),
 }
